@@ -204,7 +204,7 @@ func Step(d Doc, op *Op, r *Res, env Env) StepOut {
 		return fail([]string{"C20", "C01"}, "%s panicked: %s", op.Kind, r.ErrText)
 	}
 	if in(r.Err, EDB, EClosed, EOther) && !expectOther(op) {
-		return fail([]string{"C01"}, "%s failed with unexpected error %s (%s) on %s", op.Kind, r.Err, r.ErrText, d.State())
+		return fail([]string{"C01"}, "%s failed with unexpected error %s on %s", op.Kind, r.Err, d.State())
 	}
 	body := ""
 	if op.Body != nil {
@@ -261,8 +261,8 @@ func Step(d Doc, op *Op, r *Res, env Env) StepOut {
 			if r.Err != "" || r.Exp != d.Exp {
 				return fail([]string{"C01", "C14"}, "GetExpiry returned %d err=%s, expected %d", r.Exp, r.Err, d.Exp)
 			}
-		case d.Exists: // tombstone: 0 or missing
-			if !(r.Err == EMissing || (r.Err == "" && r.Exp == 0)) {
+		case d.Exists: // tombstone: missing, 0, or the expiry an xattr write explicitly gave the tombstone
+			if !(r.Err == EMissing || (r.Err == "" && (r.Exp == 0 || r.Exp == d.Exp))) {
 				return fail([]string{"C05", "C14"}, "GetExpiry on a tombstone returned %d err=%s, expected 0 or missing", r.Exp, r.Err)
 			}
 		default:
@@ -650,7 +650,7 @@ func stepUpdate(d Doc, op *Op, r *Res, env Env) StepOut {
 		if act.Act == "set" && act.Body != nil && env.MaxDoc > 0 && len(*act.Body) > env.MaxDoc && r.Err == ETooBig {
 			return unchanged(d, "body")
 		}
-		return fail(tags, "Update(%s) on %s failed with %s (%s)", act.Act, d.State(), r.Err, r.ErrText)
+		return fail(tags, "Update(%s) on %s failed with %s", act.Act, d.State(), r.Err)
 	}
 	// the result must be stored on exactly the version the final callback was shown
 	if last.HasBody != d.HasBody || (d.HasBody && string(last.Body) != d.Body) {
@@ -876,13 +876,14 @@ func stepXattrWrite(d Doc, op *Op, r *Res, env Env, body string, exp uint32, cas
 			return StepOut{}, false
 		}
 		sz := xattrSize(n)
+		slack := 24 + 48*len(op.Macros) // expanded macros and re-marshalling change the stored size a little
 		if r.Err == ETooBig {
-			if sz > env.MaxDoc-24 {
+			if sz > env.MaxDoc-slack {
 				return unchanged(d, "xattr"), true
 			}
 			return fail(t07, "%s reported too-big for %d bytes (limit %d)", op.Kind, sz, env.MaxDoc), true
 		}
-		if sz > env.MaxDoc+24 && r.Err == "" {
+		if sz > env.MaxDoc+slack && r.Err == "" {
 			return fail(t07, "%s stored %d bytes above the limit %d", op.Kind, sz, env.MaxDoc), true
 		}
 		return StepOut{}, false
@@ -892,7 +893,7 @@ func stepXattrWrite(d Doc, op *Op, r *Res, env Env, body string, exp uint32, cas
 			return out
 		}
 		if r.Err != "" {
-			return fail(t07, "%s on %s failed with %s (%s)", op.Kind, d.State(), r.Err, r.ErrText)
+			return fail(t07, "%s on %s failed with %s", op.Kind, d.State(), r.Err)
 		}
 		// macro expansion needs the new CAS
 		cas := newCasOf(r)
@@ -922,10 +923,15 @@ func stepXattrWrite(d Doc, op *Op, r *Res, env Env, body string, exp uint32, cas
 			n.X[k] = v
 		}
 	}
-	macroBad := func() bool { // macro on an xattr whose value is not an object
-		for _, m := range op.Macros {
-			root := strings.Split(m.Path, ".")[0]
-			if v, ok := op.Xattrs[root]; ok && !strings.HasPrefix(v, "{") {
+	// With macro expansion requested, an xattr value that is not a JSON object cannot be
+	// expanded into; whether the call then fails (rosmar: for every xattr of the call) or
+	// ignores the macro is unspecified: either, and a failure must change nothing.
+	macroEither := func() bool {
+		if len(op.Macros) == 0 {
+			return false
+		}
+		for _, v := range op.Xattrs {
+			if !strings.HasPrefix(v, "{") {
 				return true
 			}
 		}
@@ -970,10 +976,7 @@ func stepXattrWrite(d Doc, op *Op, r *Res, env Env, body string, exp uint32, cas
 		if !casOK() {
 			return failCas()
 		}
-		if macroBad() {
-			if r.Err == "" {
-				return fail(t07, "UpdateXattrs expanded a macro into a non-object xattr")
-			}
+		if macroEither() && r.Err != "" {
 			return unchanged(d, "xattr")
 		}
 		n := d.clone()
@@ -1069,10 +1072,7 @@ func stepXattrWrite(d Doc, op *Op, r *Res, env Env, body string, exp uint32, cas
 				return unchanged(d, "xattr")
 			}
 		}
-		if macroBad() {
-			if r.Err == "" {
-				return fail(t07, "WriteWithXattrs expanded a macro into a non-object xattr")
-			}
+		if macroEither() && r.Err != "" {
 			return unchanged(d, "xattr")
 		}
 		n := d.clone()
@@ -1117,7 +1117,7 @@ func stepXattrWrite(d Doc, op *Op, r *Res, env Env, body string, exp uint32, cas
 			}
 		}
 		for _, k := range op.XDel {
-			if _, ok := d.X[k]; !ok || !isSystemXattr(k) && d.HasBody {
+			if _, ok := d.X[k]; !ok || !isSystemXattr(k) {
 				// deleting an xattr that is absent (or a user xattr that the tombstoning itself drops)
 				if _, present := d.X[k]; !present {
 					if r.Err == "" {
@@ -1130,10 +1130,7 @@ func stepXattrWrite(d Doc, op *Op, r *Res, env Env, body string, exp uint32, cas
 				}
 			}
 		}
-		if macroBad() {
-			if r.Err == "" {
-				return fail(t07, "WriteTombstoneWithXattrs expanded a macro into a non-object xattr")
-			}
+		if macroEither() && r.Err != "" {
 			return unchanged(d, "xattr")
 		}
 		n := tombstoneOf(d)
@@ -1157,10 +1154,7 @@ func stepXattrWrite(d Doc, op *Op, r *Res, env Env, body string, exp uint32, cas
 			}
 			return unchanged(d, "xattr")
 		}
-		if macroBad() {
-			if r.Err == "" {
-				return fail(t07, "WriteResurrectionWithXattrs expanded a macro into a non-object xattr")
-			}
+		if macroEither() && r.Err != "" {
 			return unchanged(d, "xattr")
 		}
 		n := Doc{HasBody: true, Body: body, JSON: 1, Exp: exp, X: map[string]string{}}
@@ -1336,14 +1330,16 @@ func stepSubdocWrite(d Doc, op *Op, r *Res, env Env) StepOut {
 			}
 			return unchanged(d, "subdoc")
 		}
-		if op.CasArg != 0 {
+		if op.CasArg != 0 && !(d.Exists && op.CasArg == d.Cas) {
 			if !in(r.Err, ECas, EMissing) {
 				return fail(t02, "WriteSubDoc(cas=%d) on %s returned %s", op.CasArg, d.State(), orOK(r.Err))
 			}
 			return unchanged(d, "subdoc")
 		}
+		// (with the tombstone's own current CAS the write may go ahead on an empty document)
 	} else if op.CasArg != 0 && !(op.CasArg == d.Cas) {
-		if !in(r.Err, ECas) {
+		// (a body that is not a JSON object may be rejected before the CAS is looked at)
+		if !in(r.Err, ECas) && !(r.Err != "" && !isJSONObject(d.Body)) {
 			return fail(t02, "%s with CAS %d (current %d) returned %s", op.Kind, op.CasArg, d.Cas, orOK(r.Err))
 		}
 		return unchanged(d, "subdoc")
@@ -1427,7 +1423,7 @@ func stepSubdocWrite(d Doc, op *Op, r *Res, env Env) StepOut {
 		}
 	}
 	if r.Err != "" {
-		return fail(t, "%s(%s) on %s failed with %s (%s)", op.Kind, op.Path, d.State(), r.Err, r.ErrText)
+		return fail(t, "%s(%s) on %s failed with %s", op.Kind, op.Path, d.State(), r.Err)
 	}
 	// whether a sub-document write keeps or clears the expiry is not specified
 	n := Doc{HasBody: true, Body: string(nb), JSON: 1, Exp: 0, ExpAny: d.HasBody && d.Exp != 0}
@@ -1456,4 +1452,13 @@ func sortedKeys(m map[string]string) []string {
 	}
 	sort.Strings(ks)
 	return ks
+}
+
+func isJSONObject(body string) bool {
+	var v any
+	if json.Unmarshal([]byte(body), &v) != nil {
+		return false
+	}
+	_, ok := v.(map[string]any)
+	return ok
 }
